@@ -407,3 +407,100 @@ Section TreeWa.
                      apply_ops ops (plug ctx old) = Some (plug ctx new') /\ sim new' new.
   Proof. intros fuel old new P ctx H. apply tree_sound. now apply tree_wa_ok. Qed.
 End TreeWa.
+
+(* ------------------------------------------------------------------------------------------ *)
+(** * The structural premise as a boolean function *)
+
+Fixpoint uniqb_from (D l : list elem) : bool :=
+  match l with
+  | [] => true
+  | x :: R => forallb (fun y => negb (amatch x y)) (D ++ R) && uniqb_from (D ++ [x]) R
+  end.
+Definition uniqb (l : list elem) : bool := uniqb_from [] l.
+
+Lemma uniqb_from_spec : forall l D, uniqb_from D l = true ->
+  forall D' x R, l = D' ++ x :: R -> forall y, In y ((D ++ D') ++ R) -> amatch x y = false.
+Proof.
+  induction l as [|x0 R0 IH]; intros D H D' x R E y Hy.
+  - destruct D'; discriminate.
+  - cbn [uniqb_from] in H. apply andb_true_iff in H. destruct H as [H1 H2].
+    destruct D' as [|d D'']; cbn [app] in E; inversion E; subst.
+    + rewrite app_nil_r in Hy. rewrite forallb_forall in H1. now apply negb_true_iff, H1.
+    + apply (IH (D ++ [d]) H2 D'' x R eq_refl y). now rewrite <- !app_assoc in *.
+Qed.
+
+Lemma uniqb_spec l : uniqb l = true -> uniq l.
+Proof. intros H D x R E y Hy. exact (uniqb_from_spec l [] H D x R E y Hy). Qed.
+
+Section StructB.
+  Variable RECb : elem -> elem -> bool.
+  Variable REC_s : elem -> elem -> Prop.
+  Hypothesis RECb_spec : forall a b, RECb a b = true -> REC_s a b.
+  Variables oc nc : list elem.
+
+  Definition sig_compatb' (s1 s2 : sig) : bool :=
+    seqb (fst s1) (fst s2) &&
+    match aval "id" (snd s1), aval "id" (snd s2) with Some a, Some b => seqb a b | None, None => true | _, _ => false end &&
+    match aval "schemeIdUri" (snd s1), aval "schemeIdUri" (snd s2) with Some a, Some b => seqb a b | None, None => true | _, _ => false end.
+
+  Lemma sig_compatb'_spec s1 s2 : sig_compatb' s1 s2 = true -> sig_compat s1 s2.
+  Proof.
+    unfold sig_compatb', sig_compat. intros H. apply andb_true_iff in H. destruct H as [H H3].
+    apply andb_true_iff in H. destruct H as [H1 H2]. apply seqb_eq in H1. split; [exact H1|]. split.
+    - destruct (aval "id" (snd s1)), (aval "id" (snd s2)); try discriminate; [apply seqb_eq in H2; congruence|reflexivity].
+    - destruct (aval "schemeIdUri" (snd s1)), (aval "schemeIdUri" (snd s2)); try discriminate; [apply seqb_eq in H3; congruence|reflexivity].
+  Qed.
+
+  Fixpoint keeps_wab (n : nat) (oi ni : Z) : bool :=
+    match n with
+    | O => true
+    | S n' =>
+      match nthZ oi oc, nthZ ni nc with
+      | Some oe, Some ne => sig_compatb' (sig_of oe) (sig_of ne) && RECb oe ne && keeps_wab n' (oi + 1) (ni + 1)
+      | _, _ => false
+      end
+    end.
+
+  Lemma keeps_wab_spec n : forall oi ni, keeps_wab n oi ni = true -> keeps_wa REC_s oc nc n oi ni.
+  Proof.
+    induction n as [|n IH]; intros oi ni H; cbn [keeps_wab keeps_wa] in *; [exact I|].
+    destruct (nthZ oi oc); [|discriminate]. destruct (nthZ ni nc); [|discriminate].
+    apply andb_true_iff in H. destruct H as [H H3]. apply andb_true_iff in H. destruct H as [H1 H2].
+    split; [now apply sig_compatb'_spec|]. split; [now apply RECb_spec|now apply IH].
+  Qed.
+
+  Fixpoint loop_wab (s : list mop) (oi ni : Z) : bool :=
+    match s with
+    | [] => keeps_wab (Z.to_nat (lenZ oc - oi)) oi ni
+    | d :: s' =>
+      let k := m_old d - oi in
+      let oi1 := oi + k in
+      let ni1 := ni + k in
+      keeps_wab (Z.to_nat k) oi ni &&
+      match m_kind d with
+      | KDel =>
+        match nthZ oi1 oc with
+        | Some oe => negb (posb oe) && loop_wab s' (oi1 + 1) ni1
+        | None => false
+        end
+      | KIns =>
+        match nthZ ni1 nc with
+        | Some ne => forallb (fun o => negb (cross ne o)) (dropZ oi1 oc) && loop_wab s' oi1 (ni1 + 1)
+        | None => false
+        end
+      end
+    end.
+
+  Lemma loop_wab_spec s : forall oi ni, loop_wab s oi ni = true -> loop_wa REC_s oc nc s oi ni.
+  Proof.
+    induction s as [|d s IH]; intros oi ni H; cbn [loop_wab loop_wa] in *.
+    - now apply keeps_wab_spec.
+    - apply andb_true_iff in H. destruct H as [H1 H2]. split; [now apply keeps_wab_spec|].
+      destruct (m_kind d).
+      + destruct (nthZ (oi + (m_old d - oi)) oc); [|discriminate].
+        apply andb_true_iff in H2. destruct H2 as [H2 H3]. split; [now apply negb_true_iff|now apply IH].
+      + destruct (nthZ (ni + (m_old d - oi)) nc); [|discriminate].
+        apply andb_true_iff in H2. destruct H2 as [H2 H3]. split; [|now apply IH].
+        intros o Ho. rewrite forallb_forall in H2. now apply negb_true_iff, H2.
+  Qed.
+End StructB.
